@@ -418,10 +418,17 @@ func (p *c16PtyPeer) Stop() {
 // c16Client is the real transport under test, reached either directly (the Implementation) or
 // through transport.Transport (read lock, forced close).
 type c16Client struct {
-	T    *transport.Transport
-	via  string
-	kind string
+	T       *transport.Transport
+	via     string
+	kind    string
+	openDur time.Duration
 }
+
+// c16TelnetTimeout is the socket timeout of the telnet cases.  Telnet.Open waits a quarter of it for
+// the first byte of the opening and then half of it after every byte: an opening that the peer
+// writes at accept time is inside the window, and Open takes at least c16TelnetTimeout/2; an Open
+// that returned after only a quarter saw nothing.
+const c16TelnetTimeout = 400 * time.Millisecond
 
 func withNetconfSubsystem() util.Option {
 	return func(o interface{}) error {
@@ -441,7 +448,7 @@ func c16TransportOptions(kind, sub, auth string, port int, pty *c16PtyPeer, hang
 	ttype := kind
 	switch kind {
 	case "telnet":
-		opts = append(opts, options.WithTimeoutSocket(240*time.Millisecond))
+		opts = append(opts, options.WithTimeoutSocket(c16TelnetTimeout))
 	case "standard":
 		opts = append(opts, options.WithTimeoutSocket(3*time.Second), options.WithAuthNoStrictKey(), options.WithAuthUsername(c16User))
 		if auth == "password" {
@@ -472,6 +479,7 @@ func openC16Client(kind, via, sub, auth string, port int, pty *c16PtyPeer, hangA
 	}
 	c := &c16Client{T: t, via: via, kind: kind}
 	done := make(chan error, 1)
+	t0 := time.Now()
 	go func() {
 		if via == "transport" {
 			done <- t.Open()
@@ -487,6 +495,7 @@ func openC16Client(kind, via, sub, auth string, port int, pty *c16PtyPeer, hangA
 	if err != nil {
 		return nil, err
 	}
+	c.openDur = time.Since(t0)
 	return c, nil
 }
 
